@@ -207,3 +207,33 @@ def twin(I):
     x = w.int("x")
     out = I.call_value(f, x)
     w.check("twin:limit is 2**53", ops.compare("<", out, 2 ** 53 - 1))
+
+
+# ================================================================================================ bounded stand-in (native)
+SWEEP_BOUND = ("native run of the real truncate_json_overflow (real numpy) on a fixed corpus of ~250 payloads - every leaf kind incl. the extreme values "
+               "of the machine integer / float types (int64 min, uint64 max, float16/32/longdouble infinities), arrays of every dtype kind incl. NaN "
+               "next to out-of-range values, object arrays, empty and 2-d arrays, nested and non-dict mappings - judged by the statement's clauses")
+E_SWEEP = "bounded:C38 the real truncate_json_overflow conforms to the statement on every payload of the corpus"
+
+
+@task("native.sweep", PROP, bounded=SWEEP_BOUND, expect=[E_SWEEP])
+def native_sweep(I):
+    """what the symbolic model abstracts away (machine arithmetic of numpy scalars treated as mathematical, bulk array operations outside the
+    model) is at least exercised natively; labelled bounded, never counted as proved"""
+    import json
+    import os
+    import subprocess
+    from pyvc.runner import ROOT
+    env = dict(os.environ, PYTHONPATH=ROOT, VERIF_REPO=os.environ.get("VERIF_REPO", "/repo"))
+    try:
+        p = subprocess.run(["/venv/bin/python", os.path.join(ROOT, "replay", "truncate_sweep.py"), "sweep"], capture_output=True, text=True,
+                           timeout=600, cwd=ROOT, env=env)
+    except subprocess.TimeoutExpired:
+        raise EngineError("native sweep timed out")
+    line = [l for l in p.stdout.splitlines() if l.startswith("SWEEP ")]
+    if p.returncode != 0 or not line:
+        raise EngineError(f"native sweep failed to run: {(p.stdout + p.stderr)[-800:]}")
+    r = json.loads(line[-1][6:])
+    if r["payloads"] < 150:
+        raise EngineError(f"native sweep covered only {r['payloads']} payloads")
+    I.w.check(E_SWEEP, not r["failures"], {"replay": "truncate_sweep.sweep_replay", "failures": r["failures"][:3], "payloads": r["payloads"]})
